@@ -42,7 +42,7 @@ REPS = {
 }
 CANON_Q = {"c.fpara", "c.tbl.2x2", "c.img.png", "sect"}
 CANON_T = {"c.fpara", "c.tbl.3x3", "c.img.png", "sect"}
-MC_DUMMY = {"Lost": set(), "MCCtors": set(), "MCFeats": set(), "MCSect": set()}
+MC_DUMMY = {"Lost": set(), "LostKinds": set(), "MCCtors": set(), "MCFeats": set(), "MCSect": set()}
 
 
 def all_tokens(ctx):
@@ -52,6 +52,7 @@ def all_tokens(ctx):
         s = f.read()
     feats = re.findall(r'^\s*F\("([^"]+)"', s, re.M)
     ctors = re.findall(r'^\s*C\("([^"]+)"', s, re.M)
+    ctx.extra_cov["feature_tokens_without_presence_claim"] = re.findall(r'^\s*F\("([^"]+)",\s*"\w",\s*\{[^}]*\},\s*"none"', s, re.M)
     return feats, ctors
 
 
